@@ -158,7 +158,12 @@ theorem C21_node_one (cfg : Config) (ic : ItemConf) (n c : Name) :
 /-- a call resolved through unqualified imports is filtered by the *global* disable list only -/
 theorem C21_node_uq_single (cfg : Config) (ic : ItemConf) (f m : Name) (fex : Bool)
     (h : gIgnored cfg m = false) : nodeItems cfg ic (.uq f fex [m]) = .ok [m] := by
-  simp [nodeItems, h]
+  simp [nodeItems, h, dedup]
+
+/-- a candidate that is listed twice (a module procedure also named in an interface of its module) counts once -/
+theorem C21_node_uq_duplicate (cfg : Config) (ic : ItemConf) (f m : Name) (fex : Bool)
+    (h : gIgnored cfg m = false) : nodeItems cfg ic (.uq f fex [m, m]) = .ok [m] := by
+  simp [nodeItems, h, dedup]
 
 /-- `USE m, ONLY: …` of a known module: nothing if `m` is ignored; else the non-ignored imported items that are
 not subroutines, plus the module itself iff a non-ignored imported symbol is a global variable -/
